@@ -240,6 +240,11 @@ func (val Value) Equals(other Value) Value {
 	case ty.IsObjectType():
 		oty := ty.typeImpl.(typeObject)
 		result = true
+		// The attributes are visited in no particular order, so the answer
+		// must not depend on which one we happen to see first: a definite
+		// difference decides the result, and only if there is none does an
+		// unknown comparison make the result unknown.
+		sawUnknown := false
 		for attr, aty := range oty.AttrTypes {
 			lhs := Value{
 				ty: aty,
@@ -251,12 +256,16 @@ func (val Value) Equals(other Value) Value {
 			}
 			eq := lhs.Equals(rhs)
 			if !eq.IsKnown() {
-				return unknownResult()
+				sawUnknown = true
+				continue
 			}
 			if eq.False() {
 				result = false
 				break
 			}
+		}
+		if result && sawUnknown {
+			return unknownResult()
 		}
 	case ty.IsTupleType():
 		tty := ty.typeImpl.(typeTuple)
@@ -333,6 +342,10 @@ func (val Value) Equals(other Value) Value {
 		ety := ty.typeImpl.(typeMap).ElementTypeT
 		if len(val.v.(map[string]interface{})) == len(other.v.(map[string]interface{})) {
 			result = true
+			// As for objects above, the keys are visited in no particular
+			// order, so a definite difference must win over an unknown
+			// comparison regardless of which is encountered first.
+			sawUnknown := false
 			for k := range val.v.(map[string]interface{}) {
 				if _, ok := other.v.(map[string]interface{})[k]; !ok {
 					result = false
@@ -348,12 +361,16 @@ func (val Value) Equals(other Value) Value {
 				}
 				eq := lhs.Equals(rhs)
 				if !eq.IsKnown() {
-					return unknownResult()
+					sawUnknown = true
+					continue
 				}
 				if eq.False() {
 					result = false
 					break
 				}
+			}
+			if result && sawUnknown {
+				return unknownResult()
 			}
 		}
 	case ty.IsCapsuleType():
